@@ -40,10 +40,11 @@ class Violation:
              without any proxy.
     """
 
-    def __init__(self, key: str, what: str, replay: dict):
+    def __init__(self, key: str, what: str, replay: dict, weight: int = 1):
         self.key = key
         self.what = what
         self.replay = replay
+        self.weight = weight      # number of obligations / cases it stands for
 
 
 class Report:
@@ -58,8 +59,8 @@ class Report:
         self.harness_errors: list[str] = []
         self.notes: list[str] = []
 
-    def violation(self, key, what, replay):
-        self.violations.append(Violation(key, what, replay))
+    def violation(self, key, what, replay, weight=1):
+        self.violations.append(Violation(key, what, replay, weight))
 
     def harness_error(self, msg):
         self.harness_errors.append(msg)
@@ -159,6 +160,10 @@ def cmd_check(args) -> int:
     not_reproduced = []
     seen_keys = set()
     known_inst = {}
+    weights = {}
+    for v in report.violations:
+        weights[v.key] = weights.get(v.key, 0) + v.weight
+    known_weight = 0
     for v in report.violations:
         if v.key in seen_keys:
             continue
@@ -167,6 +172,7 @@ def cmd_check(args) -> int:
         if kk is not None:
             known_seen.setdefault(kk, v)
             known_inst[kk] = known_inst.get(kk, 0) + 1
+            known_weight += weights[v.key]
             continue
         name = hashlib.sha256(v.key.encode()).hexdigest()[:12]
         path = os.path.join(ROOT, 'replays', f'{pid}_{name}.json')
@@ -205,6 +211,13 @@ def cmd_check(args) -> int:
     if report.inconclusive:
         cov['exhaustive'] = False
     cov['inconclusive'] = len(report.inconclusive)
+    if report.level == 'proof' and 'obligations' in cov:
+        # obligations refuted by a *listed known finding* are not claimed: they
+        # are counted apart, so that obligations == discharged exactly when
+        # everything that is claimed was proved
+        cov['obligations_generated'] = cov['obligations']
+        cov['known_finding_obligations'] = known_weight
+        cov['obligations'] = cov['obligations'] - known_weight
     cov['known_findings_matched'] = sorted(known_seen)
     cov['violation_keys'] = [v.key for v, _ in new_violations][:50]
     evidence = dict(
